@@ -25,7 +25,8 @@ NoBotp   == [set |-> FALSE, exp |-> FALSE]
 
 VARIABLES cookie,    \* [Slots -> [u, lvl]]       what each browser session holds
           pushTx,    \* [VCookies -> [u, st, exp]] VIP push transactions (st: none / waiting / approved)
-          oktaTx,    \* [Users -> [st]]            Okta push state per user (the authenticator keys it by user)
+          oktaTx,    \* [Users -> st]              Okta sign-in per user (the authenticator keys it by user): "nosess" no pending
+                     \*                            sign-in, "none" signed in / no push, "waiting", "approved"
           chal,      \* [Users -> [present, exp]]  pending hardware-token challenge
           totpLast,  \* [Users -> Int]             last step at which a code of that user was accepted (-1: never)
           now,       \* current TOTP step
@@ -74,7 +75,9 @@ Login(s, u) ==
     /\ cookie[s].u = None
     /\ cookie' = [cookie EXCEPT ![s] = [u |-> u, lvl |-> {"pw"}]]
     /\ proven' = {<<u, "pw">>} /\ act' = Req("Login", [slot |-> s, user |-> u])
-    /\ UNCHANGED <<pushTx, oktaTx, chal, totpLast, now, botp, cliTok>>
+    \* with Okta as password backend a login opens a fresh Okta sign-in for the user
+    /\ oktaTx' = IF "okta" \in Mechs THEN [oktaTx EXCEPT ![u] = "none"] ELSE oktaTx
+    /\ UNCHANGED <<pushTx, chal, totpLast, now, botp, cliTok>>
 
 Logout(s) ==
     /\ cookie[s].u # None
@@ -126,8 +129,17 @@ OktaPoll(c) ==
     /\ "okta" \in Mechs /\ Actor(c) # None /\ CanUpgrade(c)
     /\ G_C05_OktaApproved(c)
     /\ Upgrade(c, "okta")
-    /\ oktaTx' = [oktaTx EXCEPT ![Actor(c)] = "none"]
+    /\ oktaTx' = [oktaTx EXCEPT ![Actor(c)] = "nosess"]          \* the sign-in is complete
     /\ proven' = {<<Actor(c), "okta">>} \cup CertProof(c) /\ act' = Req("OktaPoll", [cred |-> c])
+    /\ UNCHANGED <<pushTx, chal, totpLast, now, botp, cliTok>>
+
+\* Okta one-time code: verified by Okta against the pending sign-in of the ACTOR (o: whose code is typed)
+OktaOTP(c, o) ==
+    /\ "okta" \in Mechs /\ Actor(c) # None /\ CanUpgrade(c)
+    /\ G_C05_CodeOwner(c, o) /\ oktaTx[Actor(c)] # "nosess"
+    /\ Upgrade(c, "okta")
+    /\ oktaTx' = [oktaTx EXCEPT ![Actor(c)] = "nosess"]
+    /\ proven' = {<<o, "okta">>} \cup CertProof(c) /\ act' = Req("OktaOTP", [cred |-> c, owner |-> o])
     /\ UNCHANGED <<pushTx, chal, totpLast, now, botp, cliTok>>
 
 \* --- locally verified TOTP: a code is (owner, step)
@@ -202,14 +214,14 @@ Expire(what, k) ==
     /\ UNCHANGED <<cookie, oktaTx, totpLast, now, cliTok>>
 
 Init == /\ cookie = [s \in Slots |-> NoCookie] /\ pushTx = [v \in VCookies |-> NoTx]
-        /\ oktaTx = [u \in Users |-> "none"]
+        /\ oktaTx = [u \in Users |-> "nosess"]
         /\ chal = [u \in Users |-> NoChal] /\ totpLast = [u \in Users |-> 0 - 1] /\ now = 0
         /\ botp = [u \in Users |-> NoBotp] /\ cliTok = {} /\ proven = {}
         /\ act = Req("Init", [x |-> 0])
 
 Next == \/ \E s \in Slots, u \in Users : Login(s, u)
         \/ \E s \in Slots : Logout(s)
-        \/ \E c \in Creds, o \in Users : VipOTP(c, o) \/ U2FFinish(c, o) \/ BotpUse(c, o)
+        \/ \E c \in Creds, o \in Users : VipOTP(c, o) \/ U2FFinish(c, o) \/ BotpUse(c, o) \/ OktaOTP(c, o)
         \/ \E c \in Creds, v \in VCookies : PushStart(c, v) \/ PushPoll(c, v)
         \/ \E v \in VCookies : Approve(v)
         \/ \E c \in Creds : OktaStart(c) \/ OktaPoll(c) \/ U2FBegin(c) \/ CliShow(c)
